@@ -465,6 +465,34 @@ def protected_functions(P: Project) -> List[Tuple[FunctionInfo, List[str]]]:
             out.append((f, roots + ["<self.data>"]))
         elif f.qualname.endswith("stateful_transform.<locals>.wrapper"):
             out.append((f, ["data"]))
+    # a PRIVATE module-level helper of a transforms module is only ever called by the code next to it: one of its parameters is
+    # caller-owned exactly when, at some call site, the argument may alias caller-owned data of the calling function
+    by_q = {f.qualname: i for i, (f, _r) in enumerate(out)}
+    priv = [f for f, _r in out if f.module.name.startswith("formulaic.transforms") and f.parent is None and f.cls is None and f.name.startswith("_")]
+    for _ in range(3):
+        for h in priv:
+            sites = []
+            for g, groots in out:
+                if g.module is not h.module or g is h:
+                    continue
+                for c in walk_no_nested(g.node):
+                    if isinstance(c, ast.Call) and isinstance(c.func, ast.Name) and c.func.id == h.name:
+                        sites.append((g, groots, c))
+            if not sites:
+                continue
+            hp = [p for p in param_names(h.node) if not p.startswith("*")]
+            owned: Set[str] = set()
+            for g, groots, c in sites:
+                cfg_g = CFG(g.node)
+                st_c = P.enclosing_stmt(c)
+                bound = list(zip(hp, c.args)) + [(k.arg, k.value) for k in c.keywords if k.arg]
+                for pn, a in bound:
+                    if pn in STATE_LIKE:
+                        continue
+                    names = [n.id for n in ast.walk(a) if isinstance(n, ast.Name)]
+                    if any(_alias_chain(P, cfg_g, st_c, nm, set(groots), g.node, 0, set()) is not None for nm in names):
+                        owned.add(pn)
+            out[by_q[h.qualname]] = (h, [p for p in hp if p in owned])
     return out
 
 
